@@ -102,9 +102,42 @@ func runsOnEveryPathThrough(ins ssa.Instruction) bool {
 
 // EachInstrDeep visits fn and every closure literal nested in it.
 func EachInstrDeep(fn *ssa.Function, f func(fn *ssa.Function, ins ssa.Instruction)) {
-	EachInstr(fn, func(i ssa.Instruction) { f(fn, i) })
+	eachInstrDeep(fn, f, map[*ssa.Function]bool{})
+}
+
+func eachInstrDeep(fn *ssa.Function, f func(fn *ssa.Function, ins ssa.Instruction), done map[*ssa.Function]bool) {
+	if done[fn] {
+		return
+	}
+	done[fn] = true
+	// functions that did not exist at review time are part of fn: the helpers EachInstr walks inline (their function
+	// literals are literals of fn) and the methods handed over as method values (a literal that was given a name)
+	var inlined, bound []*ssa.Function
+	seen := map[*ssa.Function]bool{fn: true}
+	EachInstr(fn, func(i ssa.Instruction) {
+		f(fn, i)
+		if p := i.Parent(); p != nil && !seen[p] {
+			seen[p] = true
+			inlined = append(inlined, p)
+		}
+		if mc, ok := i.(*ssa.MakeClosure); ok {
+			if w, isF := mc.Fn.(*ssa.Function); isF {
+				if m := Unbound(w); m != w && IsNew(m) && m.Blocks != nil {
+					bound = append(bound, m)
+				}
+			}
+		}
+	})
 	for _, a := range fn.AnonFuncs {
-		EachInstrDeep(a, f)
+		eachInstrDeep(a, f, done)
+	}
+	for _, h := range inlined {
+		for _, a := range h.AnonFuncs {
+			eachInstrDeep(a, f, done)
+		}
+	}
+	for _, m := range bound {
+		eachInstrDeep(m, f, done)
 	}
 }
 
